@@ -654,7 +654,9 @@ func (c *Conn) reconnect(ctx context.Context) error {
 	}
 	c.wireConn = res
 	if !c.state.CompareAndSwap(connStatusReconnecting, connStatusConnected) {
-		panic(errors.Errorf("unexpected error: expected reconnecting but %v", c.state.current))
+		// Close was called while dialing. It is waiting for wireConnMu and will
+		// disconnect the connection installed above.
+		return errors.ErrConnectionClosed
 	}
 	return nil
 }
